@@ -1135,6 +1135,34 @@ func runH2(env *core.Env, ci any) {
 			snd.mu.Unlock()
 		}
 	}
+	// "credited back ... so a conforming sender is never starved": at a drained quiescent point every octet a sender
+	// has put on the wire has been read by the relay, so its credit must be back already - whatever the state of the
+	// windows in the opposite direction (the sender may be waiting for exactly this credit before it reads or grants)
+	if client != nil && server != nil {
+		env.Sched.Drain(100000)
+		for _, pr := range [][2]*h2Peer{{client, server}, {server, client}} {
+			p, other := pr[0], pr[1]
+			p.mu.Lock()
+			other.mu.Lock()
+			dead := p.closed || other.closed || len(p.violations) > 0 || len(other.violations) > 0
+			if !dead {
+				if p.wuRecvConn < p.sentFCConn {
+					env.Fail("h2-credit-return", "before-windows-open/connection", "%s has sent %d flow-controlled octets, nothing is in flight, and the relay has credited back only %d on the connection", p.name, p.sentFCConn, p.wuRecvConn)
+				}
+				for _, id := range streamIDs {
+					sent := p.sentFC[id]
+					if streamFinished(p.sentHist[id]) || streamFinished(p.recvHist[id]) && hasReset(p.recvHist[id]) || hasReset(other.sentHist[id]) {
+						continue
+					}
+					if p.wuRecv[id] < sent {
+						env.Fail("h2-credit-return", "before-windows-open/stream", "%s has sent %d flow-controlled octets on stream %d (which it has not finished), nothing is in flight, and the relay has credited back only %d on that stream", p.name, sent, id, p.wuRecv[id])
+					}
+				}
+			}
+			other.mu.Unlock()
+			p.mu.Unlock()
+		}
+	}
 	// Phase 2 (liveness): receivers open their windows wide; everything queued must now arrive
 	if client != nil && server != nil {
 		// first the connection windows, and only when that has settled the stream windows - through a SETTINGS
@@ -1378,6 +1406,15 @@ func firstField(fs []hpack.HeaderField) string {
 		v = v[:20]
 	}
 	return fs[0].Name + "=" + v
+}
+
+func hasReset(h []h2Item) bool {
+	for _, it := range h {
+		if it.kind == "R" {
+			return true
+		}
+	}
+	return false
 }
 
 func streamFinished(h []h2Item) bool {
